@@ -2,17 +2,23 @@
 from contracts import history
 
 LEVEL = "proof"
-TRUSTED = ["assumed contract of Action.inverse() (moves the world from dst(a) to src(a)): that is C01's conclusion"]
+TRUSTED = ["call-site contracts of the sub-action constructors used by UserUpdateSegmentation at the level of abstract world states (raise => world unchanged; return => a record with src/dst; registers/emits iff _top_level): proved of the real UserDeleteNode / UserAddNode constructors (clauses C11 on-raise, C02/C20 iff-top-level) and of the primitive UpdateNodeSeg (contracts/segprims.py); a.inverse() moves the world from dst(a) to src(a) (C01's conclusion)", "assumed contract of Action.inverse() (moves the world from dst(a) to src(a)): that is C01's conclusion"]
 EXPLANATION = ("Representation invariant INV_H of ActionHistory against a ghost timeline+cursor, proved preserved by "
                "the real add_new_action/undo/redo for stacks of every length (symbolic lists, quantified chain clauses).")
 ASSUMPTIONS = ["C02 is conditional on C01 (each recorded action is invertible where it was applied)"]
 NOT_UNDER_CONTRACT = []
 
 
+def bounded(tier, seed):
+    from pyvc.native_bridge import bounded_paint
+    return [bounded_paint(tier, "C02", "a stroke is exactly one timeline step however many nodes it adds, shrinks or removes; undo/redo step along the timeline")]
+
+
 def units(tier):
     from contracts import useractions
     from ._common import UA_ALL
-    return history.units() + history.tracks_units() + useractions.units(UA_ALL)
+    from contracts import paint
+    return history.units() + history.tracks_units() + useractions.units(UA_ALL) + paint.units()
 
 
 def witness(label, failure, seed):
